@@ -3,6 +3,9 @@ import IrefVerif.Lemmas.Nsegs
 import IrefVerif.Model.Reference
 import IrefVerif.Findings
 import IrefVerif.Lemmas.ResolveEmpty
+import IrefVerif.Lemmas.ResolveAuth
+import IrefVerif.Lemmas.IriBytes
+import IrefVerif.Props.Valid
 import IrefVerif.Lemmas.ValidWF
 
 /-!
@@ -15,11 +18,22 @@ dot-segment removal is idempotent on segment lists.  `Model.Ref.resolve` transli
 `RiRefBufImpl::resolve`; the by-value, by-reference and in-place entry points are that one
 function, and both families share it.  The equation `resolve = recompose ∘ transform` on the
 real crate is the `resolve` oracle (`Oracle.resolve`), with the open finding F15
-(`Findings.f15`) excluded.  For the model it is proved for the third branch of §5.2.2 —
-references with an empty path (`""`, `?q`, `#f`, `?q#f`), where the implementation runs
-`set_scheme`, `set_authority`, `set_path`, `set_query` in sequence: `resolve_empty_path`, for every
-valid base and reference of either family; the other branches (dot-segment removal through the
-path handle) are PARTIAL: judged on the implementation only.
+(`Findings.f15`) excluded.  For the model it is proved, for every valid base and reference of
+either family (octet level), in three of the five branches of §5.2.2:
+* the reference has an authority, with or without a scheme (`resolve_with_authority`): the
+  model of `remove_dot_segments` — normalisation through the path handle, the trailing `/` of a
+  final dot segment, the collapse of a lone shielded empty segment — *is* §5.2.4 with Errata 4547
+  after an authority (`Lemmas/RemoveDots.lean`: `remove_dot_segments_view`,
+  `rdsView_after_authority`);
+* the reference has an empty path (`resolve_empty_path`): `set_scheme`, `set_authority`,
+  `set_path`, `set_query` in sequence.
+* the reference has a scheme and no authority (`resolve_scheme_no_authority`), whenever the
+  dot-free path needs no shield (`needsShield`: its first segment is not empty — otherwise the RFC
+  text itself would be read differently, `s:/..//a` ↦ `s://a`);
+* absolute-path reference against a base with an authority (`resolve_absolute`).
+PARTIAL: an absolute-path reference against a base without authority, and the relative-path merge
+(where the RFC text can be ambiguous or lossy, and where F15 lives), are judged on the
+implementation only.
 -/
 
 namespace IrefVerif.Props.C06
@@ -66,6 +80,51 @@ theorem resolve_empty_path (G : Grammar) (ok : Grammar.Ok G) (base r : Text)
   obtain ⟨sb, hsb⟩ := Option.isSome_iff_exists.mp (hsp ▸ hsP)
   have := Lemmas.resolve_empty_path (split r) (split base) wR wB sb hsb hs ha hp
   rwa [Lemmas.recompose_split, Lemmas.recompose_split] at this
+
+/-- **§5.2.2, reference with an authority** (first branch when it also has a scheme, second
+branch otherwise): the model of `resolve` returns exactly the recomposition of the RFC target -/
+theorem resolve_with_authority (G : Grammar) (ok : Grammar.Ok G) (okp : Grammar.OkPath G) (base r a : Text)
+    (hb : RE.Matches G.full base) (hr : RE.Matches G.reference r) (ha : (split r).authority = some a) :
+    Model.Ref.resolve r base = some (recompose (resolveSpec base r)) :=
+  Lemmas.resolve_authority G ok okp base r a hb hr ha
+
+/-- **§5.2.2, first branch without authority**: a reference with a scheme is resolved by
+removing its dot segments (the base is not looked at), whenever the result needs no shield -/
+theorem resolve_scheme_no_authority (G : Grammar) (ok : Grammar.Ok G) (base r s : Text)
+    (hr : RE.Matches G.reference r) (hs : (split r).scheme = some s) (ha : (split r).authority = none)
+    (hns : needsShield false false (split r).path = false) :
+    Model.Ref.resolve r base = some (recompose (resolveSpec base r)) :=
+  Lemmas.resolve_scheme_no_authority G ok base r s hr hs ha hns
+
+/-- **§5.2.2, fourth branch**: an absolute-path reference against a base with an authority -/
+theorem resolve_absolute (G : Grammar) (ok : Grammar.Ok G) (okp : Grammar.OkPath G) (base r ab : Text)
+    (hb : RE.Matches G.full base) (hr : RE.Matches G.reference r)
+    (hs : (split r).scheme = none) (ha : (split r).authority = none) (hp : isAbs (split r).path = true)
+    (hab : (split base).authority = some ab) :
+    Model.Ref.resolve r base = some (recompose (resolveSpec base r)) :=
+  Lemmas.resolve_absolute G ok okp base r ab hb hr hs ha hp hab
+
+/-- the side condition of `resolve_scheme_no_authority` holds on ordinary inputs, fails where the
+RFC text is ambiguous -/
+example : needsShield false false [0x2F,0x61,0x2F,0x2E,0x2E,0x2F,0x62] = false := by decide
+example : needsShield false false [0x2F,0x2E,0x2E,0x2F,0x2F,0x61] = true := by decide
+
+/-- end to end, URI family: any accepted `Uri` base, any accepted `UriRef` with an authority -/
+theorem uri_resolve_with_authority (base r a : Text) (hb8 : ∀ c ∈ base, c < 256) (hr8 : ∀ c ∈ r, c < 256)
+    (hb : accepts .uri base = true) (hr : accepts .uriRef r = true) (ha : (split r).authority = some a) :
+    Model.Ref.resolve r base = some (recompose (resolveSpec base r)) :=
+  resolve_with_authority uriG uriG_ok uriG_okPath base r a (Valid.uri_octets base hb8 hb)
+    (Valid.uriRef_octets r hr8 hr) ha
+
+/-- … IRI family (octets) -/
+theorem iri_resolve_with_authority (base r a : Text) (hb8 : ∀ c ∈ base, c < 256) (hr8 : ∀ c ∈ r, c < 256)
+    (hb : accepts .iri base = true) (hr : accepts .iriRef r = true) (ha : (split r).authority = some a) :
+    Model.Ref.resolve r base = some (recompose (resolveSpec base r)) :=
+  resolve_with_authority iriGB iriGB_ok iriGB_okPath base r a (Valid.iri_octets base hb8 hb)
+    (Valid.iriRef_octets r hr8 hr) ha
+
+example : Model.Ref.resolve [0x2F,0x2F,0x67,0x2F,0x61,0x2F,0x2E,0x2E,0x2F,0x2E] base54'
+    = some (recompose (resolveSpec base54' [0x2F,0x2F,0x67,0x2F,0x61,0x2F,0x2E,0x2E,0x2F,0x2E])) := by decide
 
 example : Model.Ref.resolve [0x3F, 0x79] base54' = some (recompose (resolveSpec base54' [0x3F, 0x79])) := by decide
 
